@@ -90,13 +90,14 @@ def match_known(known, pid, obname, args_repr):
 def discharge(modname, pid, ob, tier, known, scale):
     """Run one obligation to a final verdict, handling replay, model mismatches and known findings."""
     extra, log, known_hits = [], [], []
-    agg = {'paths': 0, 'queries': 0, 'solver_s': 0.0, 'wall_s': 0.0}
+    agg = {'paths': 0, 'queries': 0, 'solver_s': 0.0, 'wall_s': 0.0, 'main_paths': 0}
     functions = set()
     final = None
     for attempt in range(8):
         res = run_worker(modname, ob, extra, tier, scale)
         for k in ('paths', 'queries'):
             agg[k] += int(res.get(k) or 0)
+        agg['main_paths'] = int(res.get('main_paths') if res.get('main_paths') is not None else (res.get('paths') or 0))
         agg['solver_s'] += float(res.get('solver_s') or 0)
         agg['wall_s'] += float(res.get('total_s') or res.get('wall_s') or 0)
         log.append({k: res.get(k) for k in ('status', 'message', 'cex', 'witness', 'paths', 'wall_s')})
